@@ -34,46 +34,217 @@ theorem finishFrame_frames (P : Params) (m : Machine) (f : Frame) (rest : List F
 
 /-! ### the shape of `enter` -/
 
-/-- `enter` either returns at most `gas` to the caller's stack, or pushes a frame holding `gas` -/
+/-- outcome of entering a callee on top of `parents`: gas handed back, or a new frame -/
+def EnterShape (_P : Params) (parents : List Frame) (oldResult : Option (Res × Nat)) (k : Kind) (gas : Nat) (m' : Machine) : Prop :=
+  (∃ x res, x ≤ gas ∧ m'.frames = addGas parents x ∧
+      m'.result = (if parents.isEmpty then some (res, x) else none)) ∨
+  (∃ cf : Frame, cf.gas = gas ∧ cf.supplied = gas ∧ cf.kind = k ∧ m'.frames = cf :: parents ∧ m'.result = oldResult)
+
+theorem giveBack_shape (P : Params) (m : Machine) (k : Kind) (res : Res) (x gas : Nat) (h : x ≤ gas) :
+    EnterShape P m.frames m.result k gas (giveBack m res x) :=
+  .inl ⟨x, res, h, rfl, rfl⟩
+
+theorem finish_shape (P : Params) (m' : Machine) (f : Frame) (parents : List Frame) (old : Option (Res × Nat))
+    (k : Kind) (res : Res) (g r gas : Nat) (h : g ≤ gas) :
+    EnterShape P parents old k gas (finishFrame P m' f parents res g r) := by
+  obtain ⟨g', res', h1, h2, h3⟩ := finishFrame_frames P m' f parents res g r
+  exact .inl ⟨g', res', by omega, h2, h3⟩
+
+theorem runCallee_shape (P : Params) (m' : Machine) (f : Frame) (parents : List Frame) (gas : Nat) (callee : Callee)
+    (k : Kind) (hg : f.gas = gas) (hs : f.supplied = gas) (hk : f.kind = k) :
+    EnterShape P parents m'.result k gas (runCallee P m' f parents gas callee) := by
+  unfold runCallee
+  split
+  · exact .inr ⟨f, hg, hs, hk, rfl, rfl⟩
+  · split
+    · exact finish_shape _ _ _ _ _ _ _ _ _ _ (Nat.zero_le _)
+    · split
+      · exact finish_shape _ _ _ _ _ _ _ _ _ _ (Nat.sub_le _ _)
+      · exact finish_shape _ _ _ _ _ _ _ _ _ _ (Nat.sub_le _ _)
+  · exact finish_shape _ _ _ _ _ _ _ _ _ _ (Nat.le_refl _)
+
 theorem enter_shape (P : Params) (m : Machine) (k : Kind) (gas : Nat) (value canT : Bool) (callee : Callee) :
-    (∃ x res, x ≤ gas ∧ (enter P m k gas value canT callee).frames = addGas m.frames x ∧
-        (enter P m k gas value canT callee).result = (if m.frames.isEmpty then some (res, x) else none)) ∨
-    (∃ cf : Frame, cf.gas = gas ∧ cf.supplied = gas ∧ cf.kind = k ∧
-        (enter P m k gas value canT callee).frames = cf :: m.frames ∧
-        (enter P m k gas value canT callee).result = m.result ∧
-        m.frames.length ≤ P.callCreateDepth) := by
+    EnterShape P m.frames m.result k gas (enter P m k gas value canT callee) := by
   unfold enter
   split
-  · exact .inl ⟨gas, .failed, Nat.le_refl _, rfl, rfl⟩
-  · rename_i hd
-    split
-    · exact .inl ⟨gas, .failed, Nat.le_refl _, rfl, rfl⟩
+  · exact giveBack_shape _ _ _ _ _ _ (Nat.le_refl _)
+  · split
+    · exact giveBack_shape _ _ _ _ _ _ (Nat.le_refl _)
     · split
-      · -- create
+      · rename_i hk
+        subst hk
+        unfold enterCreate
         split
-        · exact .inl ⟨0, .failed, Nat.zero_le _, rfl, rfl⟩
+        · exact giveBack_shape _ _ _ _ _ _ (Nat.zero_le _)
+        · exact runCallee_shape P _ _ _ _ _ _ rfl rfl rfl
+      · unfold enterCall
+        split
+        · exact giveBack_shape _ _ _ _ _ _ (Nat.le_refl _)
         · split
-          · exact .inr ⟨_, rfl, rfl, rfl, rfl, rfl, by omega⟩
-          · obtain ⟨g', res', h1, h2, h3⟩ := finishFrame_frames P
-              { m with journal := m.journal ++ [.transfer value, .transfer value] }
-              { kind := .create, gas := gas, snap := m.journal.length, setRO := false, supplied := gas, entry := m.journal }
-              m.frames .ok gas 0
-            exact .inl ⟨g', res', h1, h2, h3⟩
+          · exact giveBack_shape _ _ _ _ _ _ (Nat.le_refl _)
+          · exact runCallee_shape P _ _ _ _ _ _ rfl rfl rfl
+
+/-- a frame is only pushed when the depth check passed -/
+theorem enter_push_depth (P : Params) (m : Machine) (k : Kind) (gas : Nat) (value canT : Bool) (callee : Callee)
+    (h : (enter P m k gas value canT callee).frames.length = m.frames.length + 1) :
+    m.frames.length ≤ P.callCreateDepth := by
+  unfold enter at h
+  split at h
+  · simp [giveBack, length_addGas] at h
+  · omega
+
+/-! ### `pre`: what passing the checks implies -/
+
+/-- facts established by the checks before the gas stage -/
+theorem pre_ok_valid (T : Table) (ro : Bool) (gas : Nat) (c : Choice) (r : Nat × Nat)
+    (h : pre T ro gas c = .ok r) :
+    (T.info c.op).valid = true ∧ (T.info c.op).minStack ≤ c.stackLen ∧ c.stackLen ≤ (T.info c.op).maxStack ∧
+    (ro = true → (T.info c.op).writes = false ∧ ¬ (c.op = T.params.opCall ∧ c.value = true)) := by
+  unfold pre at h
+  simp only [] at h
+  split at h; · cases h
+  split at h; · cases h
+  split at h; · cases h
+  split at h; · cases h
+  rename_i h1 h2 h3 h4
+  refine ⟨by simpa using h1, by omega, by omega, ?_⟩
+  intro hro
+  subst hro
+  simp only [true_and, not_or] at h4
+  exact ⟨by simpa using h4.1, by simpa using h4.2⟩
+
+/-- a plain (non-call) instruction: gas never grows; strictly shrinks unless the instruction ends the frame -/
+theorem pre_ok_plain (T : Table) (hT : T.WF) (ro : Bool) (gas : Nat) (c : Choice) (g child : Nat)
+    (h : pre T ro gas c = .ok (g, child)) (hk : T.kindOf c.op = none) :
+    child = 0 ∧ g ≤ gas ∧
+    (((T.info c.op).halts = false ∧ (T.info c.op).reverts = false) → g + 1 ≤ gas) := by
+  have hv := (pre_ok_valid T ro gas c _ h).1
+  unfold pre at h
+  simp only [] at h
+  split at h; · cases h
+  split at h; · cases h
+  split at h; · cases h
+  split at h; · cases h
+  split at h; · cases h
+  split at h; · cases h
+  rw [hk] at h
+  simp only [] at h
+  split at h; · cases h
+  rename_i hc
+  simp only [Except.ok.injEq, Prod.mk.injEq] at h
+  obtain ⟨h1, h2⟩ := h
+  refine ⟨h2.symm, by omega, ?_⟩
+  intro hh
+  have := hT.cost_pos c.op hv (.inr hh)
+  omega
+
+/-- the gas stage of a call: what it returns when it succeeds -/
+theorem preCall_ok (P : Params) (minGas gas : Nat) (wv : Bool) (extra req g child : Nat)
+    (h : preCall P minGas gas wv extra req = .ok (g, child)) :
+    ∃ temp, callGas P gas (minGas + (if wv then P.callValueTransferGas else 0) + extra) req = some temp ∧
+      minGas + (if wv then P.callValueTransferGas else 0) + extra + temp ≤ gas ∧
+      g = gas - (minGas + (if wv then P.callValueTransferGas else 0) + extra + temp) ∧
+      child = temp + (if wv then P.callStipend else 0) := by
+  unfold preCall at h
+  simp only [] at h
+  generalize minGas + (if wv then P.callValueTransferGas else 0) + extra = base at h ⊢
+  generalize (if wv = true then P.callStipend else 0) = st at h ⊢
+  split at h
+  · cases h
+  · rename_i temp ht
+    split at h; · cases h
+    split at h; · cases h
+    simp only [Except.ok.injEq, Prod.mk.injEq] at h
+    exact ⟨temp, ht, by omega, h.1.symm, h.2.symm⟩
+
+/-- a call-type instruction: what stays in the caller plus what the callee gets is strictly less
+    than what the caller had -/
+theorem pre_ok_call (T : Table) (hT : T.WF) (ro : Bool) (gas : Nat) (c : Choice) (g child : Nat) (k : Kind)
+    (h : pre T ro gas c = .ok (g, child)) (hk : T.kindOf c.op = some k) :
+    g + child + 1 ≤ gas := by
+  have hv := (pre_ok_valid T ro gas c _ h).1
+  have hpos := hT.cost_pos c.op hv (.inl (by rw [hk]; simp))
+  have hst := hT.stipend
+  unfold pre at h
+  simp only [] at h
+  split at h; · cases h
+  split at h; · cases h
+  split at h; · cases h
+  split at h; · cases h
+  split at h; · cases h
+  split at h; · cases h
+  rw [hk] at h
+  cases k with
+  | create =>
+    simp only [] at h
+    split at h; · cases h
+    simp only [Except.ok.injEq, Prod.mk.injEq] at h
+    obtain ⟨h1, h2⟩ := h
+    omega
+  | call | callCode | delegateCall | staticCall =>
+    simp only [] at h
+    obtain ⟨temp, _, h2, h3, h4⟩ := preCall_ok _ _ _ _ _ _ _ _ h
+    split at h2 <;> simp_all <;> omega
+
+/-! ### the shape of a step -/
+
+/-- the three ways one interpreter step changes the frame stack `f :: rest` -/
+inductive Shape (P : Params) (m : Machine) (f : Frame) (rest : List Frame) (m' : Machine) : Prop
+  /-- the frame ends and hands `g ≤ f.gas` back to its caller (or to the outside) -/
+  | pop (g : Nat) (res : Res) (h : g ≤ f.gas) (hf : m'.frames = addGas rest g)
+        (hr : m'.result = if rest.isEmpty then some (res, g) else none)
+  /-- the frame continues with strictly less gas -/
+  | cont (g : Nat) (h : g + 1 ≤ f.gas) (hf : m'.frames = { f with gas := g } :: rest)
+        (hr : m'.result = none ∨ m'.result = m.result)
+  /-- a callee frame is pushed: its gas plus what the caller keeps is strictly less than before,
+      and the depth check passed -/
+  | push (g : Nat) (cf : Frame) (h : cf.gas + g + 1 ≤ f.gas) (hs : cf.supplied = cf.gas)
+        (hd : rest.length + 1 ≤ P.callCreateDepth) (hf : m'.frames = cf :: { f with gas := g } :: rest)
+        (hr : m'.result = m.result)
+
+theorem step_shape (T : Table) (hT : T.WF) (m : Machine) (c : Choice) (f : Frame) (rest : List Frame)
+    (hm : m.frames = f :: rest) : Shape T.params m f rest (step T m c) := by
+  unfold step
+  rw [hm]
+  simp only []
+  cases hp : pre T m.readOnly f.gas c with
+  | error e =>
+    simp only []
+    obtain ⟨g', res', h1, h2, h3⟩ := finishFrame_frames T.params m f rest .failed 0 0
+    exact .pop g' res' (by omega) h2 h3
+  | ok r =>
+    obtain ⟨g, child⟩ := r
+    simp only []
+    cases hk : T.kindOf c.op with
+    | none =>
+      obtain ⟨_, hg, hlt⟩ := pre_ok_plain T hT _ _ _ _ _ hp hk
+      simp only []
+      split
+      · obtain ⟨g', res', h1, h2, h3⟩ := finishFrame_frames T.params m f rest .failed 0 0
+        exact .pop g' res' (by omega) h2 h3
       · split
-        · exact .inl ⟨gas, .failed, Nat.le_refl _, rfl, rfl⟩
+        · obtain ⟨g', res', h1, h2, h3⟩ := finishFrame_frames T.params
+            { m with journal := if (T.info c.op).writes then m.journal ++ List.replicate c.writes .write else m.journal }
+            f rest .reverted g 0
+          exact .pop g' res' (by omega) h2 h3
         · split
-          · exact .inl ⟨gas, .ok, Nat.le_refl _, rfl, rfl⟩
-          · split
-            · exact .inr ⟨_, rfl, rfl, rfl, rfl, rfl, by omega⟩
-            · split
-              · obtain ⟨g', res', h1, h2, h3⟩ := finishFrame_frames P _ _ m.frames .failed 0 0
-                exact .inl ⟨g', res', by omega, h2, h3⟩
-              · split
-                · obtain ⟨g', res', h1, h2, h3⟩ := finishFrame_frames P _ _ m.frames .ok (gas - _) 0
-                  exact .inl ⟨g', res', by omega, h2, h3⟩
-                · obtain ⟨g', res', h1, h2, h3⟩ := finishFrame_frames P _ _ m.frames .failed (gas - _) 0
-                  exact .inl ⟨g', res', by omega, h2, h3⟩
-            · obtain ⟨g', res', h1, h2, h3⟩ := finishFrame_frames P _ _ m.frames .ok gas 0
-              exact .inl ⟨g', res', h1, h2, h3⟩
+          · obtain ⟨g', res', h1, h2, h3⟩ := finishFrame_frames T.params
+              { m with journal := if (T.info c.op).writes then m.journal ++ List.replicate c.writes .write else m.journal }
+              f rest .ok g c.retLen
+            exact .pop g' res' (by omega) h2 h3
+          · rename_i hr hh
+            have := hlt ⟨by simpa using hh, by simpa using hr⟩
+            exact .cont g this rfl (.inr rfl)
+    | some k =>
+      have hb := pre_ok_call T hT _ _ _ _ _ k hp hk
+      simp only []
+      have hs := enter_shape T.params { m with frames := { f with gas := g } :: rest } k child c.value c.canTransfer c.callee
+      rcases hs with ⟨x, res, hx, hf, hr⟩ | ⟨cf, hg, hsup, _, hf, hr⟩
+      · refine .cont (g + x) (by omega) ?_ (.inl ?_)
+        · rw [hf]; rfl
+        · rw [hr]; rfl
+      · have hd := enter_push_depth T.params { m with frames := { f with gas := g } :: rest } k child c.value c.canTransfer c.callee
+          (by rw [hf]; simp)
+        refine .push g cf (by omega) (by omega) (by simpa using hd) hf hr
 
 end LemoProofs.EvmShape
